@@ -118,6 +118,100 @@ func runC14Extra(tier string, seed uint64, out string) {
 			time.Sleep(12 * time.Millisecond)
 		}
 	}
+	// neighbours: a select item does what it does whatever stands next to it.
+	//  same-alias    two items under ONE alias, one of them a qualified call that may resolve to the omit marker
+	//                (an effect-only argument): the rows equal those of the same list with the qualifiers removed
+	//  same-function the SAME function under two different qualifiers in one list (ONCE next to GLOBAL, ASYNC next to
+	//                ONCE, ...): every item has the value it has in the list that holds it alone (each strategy keeps
+	//                its own memo), in either order
+	{
+		genql.RegisterFunction("c14desc", func(_ *genql.Query, _ genql.Map, _ *genql.FunctionOptions, args []any) (any, error) {
+			time.Sleep(300 * time.Microsecond)
+			return fmt.Sprintf("%v", args), nil
+		})
+		genql.RegisterFunction("c14id", func(_ *genql.Query, _ genql.Map, _ *genql.FunctionOptions, args []any) (any, error) {
+			time.Sleep(300 * time.Microsecond)
+			return args[0], nil // hands the omit marker of an effect-only argument through
+		})
+		doc2 := map[string]any{"t": []any{map[string]any{"id": 1.0, "b": "p"}, map[string]any{"id": 2.0, "b": "q"}, map[string]any{"id": 3.0, "b": "r"}}}
+		rowsOf := func(sql string) (string, bool) {
+			res := runEngine(deepCopy(doc2).(map[string]any), sql)
+			if res.Class != "ok" {
+				return "error", false
+			}
+			return fmt.Sprint(jsonSafe(anySlice(res.Rows))), true
+		}
+		quiet := "RAISE_WHEN((id = 99), 'boom')"
+		xs := []string{"%sc14id(" + quiet + ")", "%sc14desc(b)", "%sc14desc(id, " + quiet + ")", "%sc14id(b)"}
+		ys := []string{"b", "c14desc(id)", "%sc14desc(id)"}
+		for _, qual := range []string{"ASYNC.", "SCOPED.", "ONCE."} {
+			for _, x := range xs {
+				for _, y := range ys {
+					for _, order := range []int{0, 1} {
+						a, b := x, y
+						if order == 1 {
+							a, b = y, x
+						}
+						mk := func(q string) string {
+							f := func(t string) string {
+								if len(t) > 2 && t[:2] == "%s" {
+									return q + t[2:]
+								}
+								return t
+							}
+							return "SELECT id, " + f(a) + " AS x, " + f(b) + " AS x FROM t"
+						}
+						if qual == "ONCE." {
+							continue // ONCE changes the value itself (first row's arguments): compared in same-function below
+						}
+						got, _ := rowsOf(mk(qual))
+						want, _ := rowsOf(mk(""))
+						checks++
+						if got != want {
+							fail("same-alias", mk(qual), "rows "+got+" differ from the unqualified list's "+want)
+						}
+					}
+				}
+			}
+		}
+		calls := map[string]string{"": "c14desc(id)", "ASYNC": "ASYNC.c14desc(id)", "ONCE": "ONCE.c14desc(id)", "SCOPED": "SCOPED.c14desc(id)",
+			"GLOBAL": "GLOBAL.c14desc((SELECT id FROM t))", "ONCE2": "ONCE.c14desc(b, id)"}
+		col := func(sql, name string) (string, bool) {
+			res := runEngine(deepCopy(doc2).(map[string]any), sql)
+			if res.Class != "ok" {
+				return "error: " + res.Err, false
+			}
+			var vs []any
+			for _, row := range res.Rows {
+				if m, ok := row.(map[string]any); ok {
+					vs = append(vs, m[name])
+				}
+			}
+			return fmt.Sprint(jsonSafe(vs)), true
+		}
+		names := []string{"", "ASYNC", "ONCE", "SCOPED", "GLOBAL", "ONCE2"}
+		for _, qa := range names {
+			for _, qb := range names {
+				if qa == qb || (qa == "ONCE" && qb == "ONCE2") || (qa == "ONCE2" && qb == "ONCE") {
+					continue // two ONCE calls of one function share the memo by design (C14 assumption)
+				}
+				pair := "SELECT id, " + calls[qa] + " AS u, " + calls[qb] + " AS w FROM t"
+				wantU, okU := col("SELECT id, "+calls[qa]+" AS u FROM t", "u")
+				wantW, okW := col("SELECT id, "+calls[qb]+" AS w FROM t", "w")
+				if !okU || !okW {
+					continue // a spelling this engine rejects on its own is not compared
+				}
+				gotU, ok1 := col(pair, "u")
+				gotW, _ := col(pair, "w")
+				checks++
+				if !ok1 {
+					fail("same-function", pair, "the pair fails ("+gotU+") although each item alone succeeds")
+				} else if gotU != wantU || gotW != wantW {
+					fail("same-function", pair, fmt.Sprintf("u = %s (alone: %s), w = %s (alone: %s)", gotU, wantU, gotW, wantW))
+				}
+			}
+		}
+	}
 	// late registration of immediate functions, after queries (with function calls) have run
 	for _, name := range []string{"c14LateImm", "c14lateimm2", "C14LATEIMM3", "c14_Late_Imm4"} {
 		var invoked int64
